@@ -132,6 +132,9 @@ func genPipePlan(seed int64, o PipeGenOpts) *PipePlan {
 		if p.Cfg.Enabled[pSFlow] {
 			p.Cfg.MirrorSFlow = tgt
 		}
+		if r.Intn(3) == 0 {
+			p.Cfg.CapMirror = 1 + r.Intn(2) // back-pressure: the non-blocking hand-off to the mirror often finds the queue full
+		}
 	}
 	if o.Filter {
 		switch r.Intn(6) {
